@@ -290,12 +290,14 @@ def replay_search(chk, A=None, B=None):
     return None
 
 
-def factory_rows(chk, ex):
+def factory_rows(chk, ex, only=None):
     """the CountMin() factory builds, for every counter type, the sketch its class constructor builds
     from the same arguments (num_reserved given or left out) - so that the parameters merge() compares
     are the ones the caller asked for"""
     fac = ex.func("countmin", "CountMin")
     for ctype, cls in (("linear", "CountMinLinear"), ("log16", "CountMinLog16"), ("log8", "CountMinLog8")):
+        if only is not None and cls not in only:
+            continue
         for given in ((True, False) if cls != "CountMinLinear" else (False,)):
             tagn = "CountMin(%r%s)" % (ctype, ", num_reserved given" if given else "")
             w, d, mc, nr = (Sym(z3.Int(n + "_f"), "int") for n in ("width", "depth", "max_count", "num_reserved"))
@@ -342,15 +344,15 @@ def factory_rows(chk, ex):
             if not ok:
                 def fnd(ctype=ctype, cls=cls, given=given):
                     cm = chk.module("countmin")
-                    for nrv in (0, 1, 7):
+                    for nrv, mcv in ((0, 2**32 - 1), (1, 2**32 - 1), (7, 2**32 - 1), (7, 100000), (3, 2**40)):
                         try:
-                            a_ = cm.CountMin(ctype, 5, 2, 2**32 - 1, nrv) if given else cm.CountMin(ctype, 5, 2)
-                            b_ = getattr(cm, cls)(5, 2, 2**32 - 1, nrv) if given else getattr(cm, cls)(5, 2)
+                            a_ = cm.CountMin(ctype, 5, 2, mcv, nrv) if given else cm.CountMin(ctype, 5, 2, mcv)
+                            b_ = getattr(cm, cls)(5, 2, mcv, nrv) if given else getattr(cm, cls)(5, 2, mcv)
                         except Exception:
                             continue
                         for pn in MERGE_PARAMS[cls]:
                             if int(getattr(a_, pn)) != int(getattr(b_, pn)):
-                                return {"key": "CountMin(%r, 5, 2, 2**32-1, %d).%s" % (ctype, nrv, pn), "observed": int(getattr(a_, pn)), "expected": int(getattr(b_, pn)), "how": "factory vs class constructor on the real code"}
+                                return {"key": "CountMin(%r, 5, 2, %d, %d).%s" % (ctype, mcv, nrv, pn), "observed": int(getattr(a_, pn)), "expected": int(getattr(b_, pn)), "how": "factory vs class constructor on the real code"}
                     return None
                 chk.violation(tagn + ":builds-what-the-class-constructor-builds", {"verdict": "refuted", "detail": "differs in %s" % sorted(set(why))}, fnd())
 
